@@ -22,19 +22,20 @@ def write_tmp(text, suffix):
 
 
 def _one(args):
-    module, cfg, chunk, key, extra, tags, timeout, dfs = args
+    module, cfg, chunk, key, extra, tags, timeout, dfs, extra_files = args
     doc = {key: chunk}
     if extra:
         doc.update(extra)
     p = write_tmp(json.dumps(doc), ".json")
     try:
-        return tlc.run_tlc(module, cfg, trace_file=p, workers=1, tags=tags, timeout=timeout, dfs=dfs)
+        return tlc.run_tlc(module, cfg, trace_file=p, workers=1, tags=tags, timeout=timeout, dfs=dfs,
+                           extra_files=extra_files)
     finally:
         os.unlink(p)
 
 
 def validate(module, cfg, traces, ctx=None, label=None, *, key="traces", extra=None, min_chunk=200,
-             tags=("FAIL", "END"), timeout=3600, dfs=False, par=None):
+             tags=("FAIL", "END"), timeout=3600, dfs=False, par=None, extra_files=()):
     """Returns (fails, results): fails = list of (index, l, clause) for every trace not accepted."""
     n = len(traces)
     if n == 0:
@@ -42,7 +43,8 @@ def validate(module, cfg, traces, ctx=None, label=None, *, key="traces", extra=N
     par = par or PAR
     nchunks = max(1, min(par, n // min_chunk if n >= min_chunk else 1))
     size = (n + nchunks - 1) // nchunks
-    jobs = [(module, cfg, traces[i:i + size], key, extra, tags, timeout, dfs) for i in range(0, n, size)]
+    jobs = [(module, cfg, traces[i:i + size], key, extra, tags, timeout, dfs, tuple(extra_files))
+            for i in range(0, n, size)]
     with ThreadPoolExecutor(max_workers=par) as ex:
         results = list(ex.map(_one, jobs))
     fails = []
